@@ -168,6 +168,9 @@ thread_local! {
     static DEPTH: Cell<u32> = Cell::new(0);
     /// Some(levels sent so far) while a chain of nested own-address sends is in progress
     static CHAIN: RefCell<Option<Vec<u8>>> = RefCell::new(None);
+    /// Some(..) while a delivery is in progress during which `Registrar` handlers register
+    /// new handlers: (next token to hand out, registrations made: token and result)
+    static REG: RefCell<Option<(u32, Vec<(u32, Result<u32, String>)>)>> = RefCell::new(None);
 }
 
 #[derive(Clone, Debug)]
@@ -182,6 +185,9 @@ enum Beh {
     /// address (given here), it sends `[0x7a, n - 1, ..]` to the own address through the handle
     /// it is given: sends nested n levels deep, each of which must reach every local handler
     SelfSender(u16),
+    /// when armed (see REG) it registers one new plain own-address handler through the handle
+    /// it is given, from inside the delivery, and records the id it got
+    Registrar,
 }
 
 #[derive(Clone, Debug)]
@@ -297,6 +303,26 @@ fn make_handler(sim: &Sim, name: &'static str, h: &MHandler, hlog: &Rc<RefCell<H
                 sim.count("handler_sent_from_delivery");
                 let _ = proto.send_packet(out);
                 DEPTH.with(|d| d.set(depth));
+            }
+        }
+        if let Beh::Registrar = &beh {
+            let tok = REG.with(|r| {
+                r.borrow_mut().as_mut().map(|(next, _)| {
+                    *next += 1;
+                    *next - 1
+                })
+            });
+            if let Some(new_token) = tok {
+                let h = MHandler { token: new_token, capture_all: false, beh: Beh::Plain, zst: None };
+                let boxed = make_handler(&sim, name, &h, &hlog);
+                sim.count("handler_registered_from_inside_a_delivery");
+                let r = proto.add_packet_handler(boxed, false).map_err(|e| format!("{:?}", e));
+                sim.event(EV_OP, 14, new_token as u64, || format!("{}.handler#{}: add_packet_handler(#{}) from inside the delivery -> {:?}", name, token, new_token, r));
+                REG.with(|x| {
+                    if let Some((_, made)) = x.borrow_mut().as_mut() {
+                        made.push((new_token, r));
+                    }
+                });
             }
         }
         if let Beh::SelfSender(own) = &beh {
@@ -731,6 +757,8 @@ pub fn run(sim: &Sim, prop: &str, tier: Tier) -> Outcome {
             } else {
                 sim.draw(2) // 0 add, 1 remove
             }
+        } else if prop == "C17" && model.live.values().any(|h| matches!(h.beh, Beh::Registrar)) && sim.chance(if model.live.len() < 24 && !long_history { 30 } else { 1 }) {
+            5 // a delivery during which handlers register further handlers
         } else if sim.chance(6) {
             4 // an exchange in the middle of the history (judged by C18, not here)
         } else if long_history {
@@ -765,6 +793,12 @@ pub fn run(sim: &Sim, prop: &str, tier: Tier) -> Outcome {
                 let self_sender_live = model.live.values().any(|h| matches!(h.beh, Beh::SelfSender(_)));
                 let beh = if zst.is_some() {
                     Beh::Plain
+                } else if prop == "C17" && model.live.values().filter(|h| matches!(h.beh, Beh::Registrar)).count() < 2 && sim.chance(7) {
+                    // (only in the C17 check, at most two per table; the unchanged library
+                    // iterates its handler map while such a handler inserts into it, so nothing
+                    // is judged about the delivery during which that happens - only the ids
+                    // returned and the state of the registry afterwards)
+                    Beh::Registrar
                 } else if prop == "C16" && !self_sender_live && sim.chance(6) {
                     // (only in the C16 check: own-address sends made by handlers are outside
                     // what C15 / C17 speak about, and an implementation that mishandles them
@@ -965,6 +999,61 @@ pub fn run(sim: &Sim, prop: &str, tier: Tier) -> Outcome {
                 }
                 sim.probe("exchange_inside_history");
                 ops_log.push("exchange".to_string());
+            }
+            // ------------------------- delivery with registrations from inside
+            5 => {
+                let p = gen_app_packet(sim, own, 0x900 + i);
+                node.link.borrow_mut().rx.push_front(RxItem::Pkt(p.clone()));
+                REG.with(|r| *r.borrow_mut() = Some((model.next_token, Vec::new())));
+                let r = sut(|| node.proto.tick());
+                let (next, made) = REG.with(|r| r.borrow_mut().take()).unwrap_or((model.next_token, Vec::new()));
+                model.next_token = next;
+                node.link.borrow_mut().rx.clear();
+                let d = take_logs(&node);
+                sim.event(EV_OP, 15, made.len() as u64, || format!("tick({}) with {} registration(s) made by handlers from inside the delivery -> {}", show_packet(&p), made.len(), show_perr(&r)));
+                ops_log.push(format!("tick+{}adds", made.len()));
+                if let Err(c) = &r {
+                    return fail(prop, "C17.unique", format!("a delivery during which handlers register handlers crashed: {:?}", c), crash_sig("register-inside", c));
+                }
+                for (t, _, _) in &d.fired {
+                    if model.dead.contains(t) {
+                        return fail(prop, "C17.remove", format!("handler #{} was removed but was invoked again; history: {}", t, ops_log.join(" ")), "removed-handler-invoked".to_string());
+                    }
+                }
+                for (new_token, res) in made {
+                    match res {
+                        Ok(id) => {
+                            if let Some(h) = model.live.get(&id) {
+                                return fail(
+                                    prop,
+                                    "C17.unique",
+                                    format!(
+                                        "add_packet_handler called by a handler from inside a delivery returned id {} which is the id of the live handler #{} (live ids: {:?}); history: {}",
+                                        id,
+                                        h.token,
+                                        model.live.keys().collect::<Vec<_>>(),
+                                        ops_log.join(" ")
+                                    ),
+                                    "duplicate-id-registered-inside-delivery".to_string(),
+                                );
+                            }
+                            let h = MHandler { token: new_token, capture_all: false, beh: Beh::Plain, zst: None };
+                            if let Some(t) = twin.as_mut() {
+                                let b2 = make_handler(sim, "t", &h, &t.hlog);
+                                let _ = sut(|| t.proto.add_packet_handler(b2, false));
+                                let (o, f) = twin_reveal(t, own);
+                                twin_own = o;
+                                twin_foreign = f;
+                            }
+                            model.live.insert(id, h);
+                            sim.probe("handler_registered_by_a_handler");
+                        }
+                        Err(e) => {
+                            return fail(prop, "C17.unique", format!("add_packet_handler called from inside a delivery failed: {}", e), "add-failed".to_string());
+                        }
+                    }
+                }
+                pending_reveal = true;
             }
             // --------------------------------------------------- reveal
             _ => {
